@@ -198,7 +198,7 @@ def build_driver():
 
 # ---- running cases -----------------------------------------------------------------------------
 
-def _run_sharded(binary, lines, shards, timeout):
+def _run_sharded(binary, lines, shards, timeout, isolate=True):
     if not lines:
         return {}
     shards = max(1, min(shards, len(lines)))
@@ -230,6 +230,24 @@ def _run_sharded(binary, lines, shards, timeout):
                 continue
             parts = l.split("\t")
             res[parts[0]] = parts[1:]
+    # a crash (abort, segfault) kills a whole shard: re-run the cases that produced no output one per
+    # process, so that only the cases that really crash stay without output
+    missing = [l for l in lines if l.split("\t", 1)[0] not in res]
+    if missing and isolate and len(missing) <= 4000:
+        from concurrent.futures import ThreadPoolExecutor
+
+        def one(l):
+            try:
+                r = subprocess.run([binary], input=l + "\n", capture_output=True, text=True, timeout=min(timeout, 120))
+                return r.stdout
+            except subprocess.TimeoutExpired:
+                return ""
+        with ThreadPoolExecutor(max_workers=NPROC) as ex:
+            for out in ex.map(one, missing):
+                for l in (out or "").split("\n"):
+                    if l:
+                        parts = l.split("\t")
+                        res[parts[0]] = parts[1:]
     return res
 
 
